@@ -596,13 +596,13 @@ func (env *SpecEnv) tr(x *SExpr) (*Term, types.Type) {
 				return env.e.load(env.cur, IdxLoc(bv, iv), a.Elem()), a.Elem()
 			}
 		}
-		if bt == nil && bv.Sort == "String" {
+		if bt == nil && bv.Sort == StrSort {
 			return strAt(bv, iv), types.Typ[types.Uint8]
 		}
 		env.fail("cannot index %s", typeKey(bt))
 	case "slice":
 		bv, bt := env.tr(x.Args[0])
-		if bv.Sort == "String" {
+		if bv.Sort == StrSort {
 			lo, hi := IntLit(0), strLen(bv)
 			if x.Args[1] != nil {
 				lo, _ = env.tr(x.Args[1])
@@ -782,18 +782,18 @@ func (env *SpecEnv) binary(x *SExpr) (*Term, types.Type) {
 		case token.GEQ:
 			return fcmp("fle", b, a), rt
 		}
-	case "String":
+	case StrSort:
 		switch op {
 		case token.ADD:
 			return strCat(a, b), rt
 		case token.LSS:
-			return App("str.<", "Bool", a, b), rt
+			return strLt(a, b), rt
 		case token.LEQ:
-			return App("str.<=", "Bool", a, b), rt
+			return strLe(a, b), rt
 		case token.GTR:
-			return App("str.<", "Bool", b, a), rt
+			return strLt(b, a), rt
 		case token.GEQ:
-			return App("str.<=", "Bool", b, a), rt
+			return strLe(b, a), rt
 		}
 	}
 	env.fail("unsupported operator %s on %s", x.Op, a.Sort)
@@ -835,7 +835,7 @@ func (env *SpecEnv) call(x *SExpr) (*Term, types.Type) {
 						return SCap(v), intT
 					}
 					return SLen(v), intT
-				case "String":
+				case StrSort:
 					return strLen(v), intT
 				case "Loc":
 					if _, ok := types.Unalias(t).Underlying().(*types.Map); ok {
@@ -894,7 +894,7 @@ func (env *SpecEnv) call(x *SExpr) (*Term, types.Type) {
 			case "as":
 				v, _ := env.tr(args[0])
 				t := env.resolveTypeExpr(args[1])
-				return UF("unbox_"+sortOf(t), sortOf(t), v), t
+				return Unbox(v, sortOf(t)), t
 			case "ite":
 				c, _ := env.tr(args[0])
 				a, at := env.tr(args[1])
@@ -912,25 +912,25 @@ func (env *SpecEnv) call(x *SExpr) (*Term, types.Type) {
 			case "strcontains":
 				a, _ := env.tr(args[0])
 				b, _ := env.tr(args[1])
-				return App("str.contains", "Bool", a, b), types.Typ[types.Bool]
+				return strOp("str.contains", "Bool", a, b), types.Typ[types.Bool]
 			case "strprefix":
 				a, _ := env.tr(args[0])
 				b, _ := env.tr(args[1])
-				return App("str.prefixof", "Bool", b, a), types.Typ[types.Bool]
+				return strOp("str.prefixof", "Bool", b, a), types.Typ[types.Bool]
 			case "strsuffix":
 				a, _ := env.tr(args[0])
 				b, _ := env.tr(args[1])
-				return App("str.suffixof", "Bool", b, a), types.Typ[types.Bool]
+				return strOp("str.suffixof", "Bool", b, a), types.Typ[types.Bool]
 			case "strindexof":
 				a, _ := env.tr(args[0])
 				b, _ := env.tr(args[1])
 				c, _ := env.tr(args[2])
-				return App("str.indexof", "Int", a, b, c), intT
+				return strOp("str.indexof", "Int", a, b, c), intT
 			case "strreplaceall":
 				a, _ := env.tr(args[0])
 				b, _ := env.tr(args[1])
 				c, _ := env.tr(args[2])
-				return App("str.replace_all", "String", a, b, c), types.Typ[types.String]
+				return strOp("str.replace_all", StrSort, a, b, c), types.Typ[types.String]
 			case "uf":
 				// uf("name", ResultType, args...) : uninterpreted function application
 				name := args[0].Name
